@@ -13,7 +13,7 @@ from . import core
 
 
 # ops whose cases are also executed on the MiniGo programs regenerated from /repo (driver ops `mg.<op>`)
-MG_OPS = ("verdict ", "iter.seq ", "jobcounter ", "dist ", "staged ", "ramp ", "gauss ")
+MG_OPS = ("verdict ", "iter.seq ", "jobcounter ", "dist ", "staged ", "ramp ", "gauss ", "scn ", "plan ")
 
 
 def default_compare(rec):
